@@ -159,7 +159,7 @@ func Check(p *Program, opts CheckOpts) *Report {
 	trusted := map[string]bool{}
 	for _, name := range names {
 		spec := p.Specs[name]
-		if spec.Trusted || strings.HasPrefix(name, "iface:") || strings.HasPrefix(name, "fntype:") {
+		if spec.Trusted || strings.HasPrefix(name, "iface:") || strings.HasPrefix(name, "fntype:") || strings.HasPrefix(name, "funcvar:") {
 			continue
 		}
 		if !spec.Verify {
@@ -319,6 +319,81 @@ func Check(p *Program, opts CheckOpts) *Report {
 	}
 	wg.Wait()
 	_ = t0
+	// obligations left undecided by the parallel race (solver timeouts under machine load) are retried a few at a
+	// time with a four-fold budget before they are reported as unknown
+	{
+		var retry []*sjob
+		for _, sj := range sjobs {
+			if sj.j.expect == "unsat" && sj.j.res.Status == "unknown" {
+				retry = append(retry, sj)
+			}
+		}
+		if len(retry) > 0 && len(retry) <= 40 {
+			sem2 := make(chan struct{}, 4)
+			var wg2 sync.WaitGroup
+			for _, sj := range retry {
+				wg2.Add(1)
+				sem2 <- struct{}{}
+				go func(sj *sjob) {
+					defer wg2.Done()
+					defer func() { <-sem2 }()
+					r := smt.Race(opts.SMTDir, sj.j.o.ID+".retry", sj.script, 4*opts.TimeoutS, false)
+					mu.Lock()
+					defer mu.Unlock()
+					rep.SolverS += r.Time
+					sj.j.res.TimeS += r.Time
+					switch r.Status {
+					case "unsat":
+						sj.j.res.Status, sj.j.res.Backend, sj.j.res.Reason = "discharged", r.Solver+" (retry)", ""
+					case "sat":
+						sj.j.res.Status, sj.j.res.Backend, sj.j.res.Model, sj.j.res.Reason = "failed", r.Solver, r.Model, "counterexample (sat)"
+					}
+				}(sj)
+			}
+			wg2.Wait()
+		}
+	}
+	// second pass for refuted obligations: ask for the witness terms (replay input), first with shaping constraints
+	for _, sj := range sjobs {
+		j := sj.j
+		if j.expect != "unsat" || j.res.Status != "failed" || len(j.e.Witness) == 0 {
+			continue
+		}
+		e := j.e
+		c := e.C
+		base := append([]*smt.Term{}, e.Axioms...)
+		base = append(base, j.o.Guard, c.Not(j.o.Cond))
+		var wconsts []*smt.Term
+		for _, w := range e.Witness {
+			k := c.Const("w:"+w.Name, w.T.Sort)
+			base = append(base, c.Eq(k, w.T))
+			wconsts = append(wconsts, k)
+		}
+		for pass := 0; pass < 2; pass++ {
+			asserts := base
+			if pass == 0 {
+				if len(e.Shaping) == 0 {
+					continue
+				}
+				asserts = append(append([]*smt.Term{}, base...), e.Shaping...)
+			}
+			mt := append(modelTerms(e, asserts), wconsts...)
+			r := smt.Race(opts.SMTDir, j.o.ID+".witness", c.Script(asserts, mt, ""), opts.TimeoutS, false)
+			rep.SolverS += r.Time
+			if r.Status == "sat" {
+				if j.res.Model == nil {
+					j.res.Model = map[string]string{}
+				}
+				for k, v := range r.Model {
+					j.res.Model[k] = v
+				}
+				if pass == 0 {
+					j.res.Model["shaped"] = "true"
+				}
+				break
+			}
+		}
+	}
 	if opts.Audit {
 		rep.Obligations = append(rep.Obligations, AuditWriters(p, opts.Prop)...)
 	}
